@@ -44,6 +44,14 @@ CLAIMED = {
               "authenticated messages must be rejected under the key; all decodes run under ASan/UBSan."),
         note="Value alphabets are finite samples of each lexical class; multi-fault corruptions are not enumerated; HMAC collisions ignored.",
         design_ref="§3 C14"),
+    "C17": dict(
+        category="exploration",
+        technique="exhaustive enumeration of all subsets (<= 3 / <= 4) of the 40 known message extensions in the three SCE modes, partition + leak + recovery oracles",
+        text=("Every combination of up to 3 (quick) / 4 (thorough) known extensions plus all-set variants is serialised in public, sensitive "
+              "and combined mode with the real QXmppMessage code and recombined as the OMEMO manager does; leakage is a universal "
+              "negative over fields, so every field and every pair/triple interaction is enumerated."),
+        note="Extension values are fixed distinctive tokens; custom/unknown extensions and the OMEMO element (not built) are out of scope.",
+        design_ref="§3 C17"),
 }
 
 PENDING_REASON = "check not built yet in this revision (see DESIGN.md §7 for the order of work); not claimed"
